@@ -54,6 +54,9 @@ type Op struct {
 	// SetPath: after the request was built from URL, its URL.Path is set to this (a client that assigns the
 	// field, or url.URL.JoinPath on a base without a path: a path WITHOUT the leading slash)
 	SetPath string `json:"set_path,omitempty"`
+	// Host: http.Request.Host ("For client requests, Host optionally overrides the Host header to send"): the
+	// authority of the target URI the origin sees, while URL.Host stays where the connection goes
+	Host string `json:"host,omitempty"`
 }
 
 // opURL: the url.URL value the caller's request carries
@@ -64,6 +67,10 @@ func opURL(op Op) (*url.URL, error) {
 	}
 	if op.SetPath != "" {
 		u.Path, u.RawPath = op.SetPath, ""
+	}
+	if op.Host != "" {
+		// the target URI of the request (RFC 9110 §7.1) has the authority of the Host field
+		u.Host = op.Host
 	}
 	return u, nil
 }
